@@ -4,7 +4,7 @@
 (* the history variable, for program generation (PithosGen).                *)
 EXTENDS Pithos
 
-CONSTANTS Deviations, Buckets, Keys, Blobs, CTypes, MetaSets, TagSets, Classes, Conds,
+CONSTANTS Deviations, Buckets, Keys, Blobs, CTypes, MetaSets, TagSets, Classes, Conds, CkSums,
           Ops, MaxClock, MaxParts
 
 VARIABLES S, res, hist
@@ -24,16 +24,17 @@ Calls(St) ==
   \cup [op : {"DeleteBucket"} \cap Ops, b : Buckets]
   \cup [op : {"PutVersioning"} \cap Ops, b : Buckets, status : {"Enabled", "Suspended"}]
   \cup [op : {"PutObject"} \cap Ops, b : Buckets, k : Keys, blob : Blobs, ctype : CTypes, meta : MetaSets,
-        tags : TagSets, class : Classes, cond : Conds]
+        tags : TagSets, class : Classes, cond : Conds, cksum : CkSums]
   \cup [op : {"GetObject"} \cap Ops, b : Buckets, k : Keys, vid : Vids(St)]
   \cup [op : {"DeleteObject"} \cap Ops, b : Buckets, k : Keys, vid : Vids(St), cond : Conds \ {"inm"}]
   \cup [op : {"CopyObject"} \cap Ops, sb : Buckets, sk : Keys, svid : Vids(St), b : Buckets, k : Keys,
         mdir : {"COPY", "REPLACE"}, tdir : {"COPY", "REPLACE"}, ctype : CTypes, meta : MetaSets,
         tags : TagSets, class : Classes]
-  \cup [op : {"AppendObject"} \cap Ops, b : Buckets, k : Keys, blob : Blobs, off : {"none", "match", "mismatch"}]
+  \cup [op : {"AppendObject"} \cap Ops, b : Buckets, k : Keys, blob : Blobs, off : {"none", "match", "mismatch"},
+        cksum : CkSums]
   \cup [op : {"CreateUpload"} \cap Ops, b : Buckets, k : Keys, ctype : CTypes, meta : MetaSets, tags : TagSets,
-        class : Classes]
-  \cup [op : {"UploadPart"} \cap Ops, b : Buckets, k : Keys, u : Uids(St), n : 1..MaxParts, blob : Blobs]
+        class : Classes, cktype : {"none", "FULL_OBJECT", "COMPOSITE"}]
+  \cup [op : {"UploadPart"} \cap Ops, b : Buckets, k : Keys, u : Uids(St), n : 1..MaxParts, blob : Blobs, cksum : CkSums]
   \cup [op : {"UploadPartCopy"} \cap Ops, sb : Buckets, sk : Keys, svid : Vids(St), b : Buckets, k : Keys,
         u : Uids(St), n : 1..MaxParts]
   \cup [op : {"CompleteUpload"} \cap Ops, b : Buckets, k : Keys, u : Uids(St),
@@ -47,14 +48,14 @@ Apply(St, c) ==
   CASE c.op = "CreateBucket"   -> CreateBucket(St, c.b)
     [] c.op = "DeleteBucket"   -> DeleteBucket(St, c.b)
     [] c.op = "PutVersioning"  -> PutVersioning(St, c.b, c.status)
-    [] c.op = "PutObject"      -> PutObject(St, c.b, c.k, c.blob, c.ctype, MetaOf(c.meta), c.tags, c.class, c.cond)
+    [] c.op = "PutObject"      -> PutObject(St, c.b, c.k, c.blob, c.ctype, MetaOf(c.meta), c.tags, c.class, c.cond, c.cksum)
     [] c.op = "GetObject"      -> GetObject(St, c.b, c.k, c.vid)
     [] c.op = "DeleteObject"   -> DeleteObject(St, c.b, c.k, c.vid, c.cond)
     [] c.op = "CopyObject"     -> CopyObject(St, c.sb, c.sk, c.svid, c.b, c.k, c.mdir, c.tdir, c.ctype,
                                              MetaOf(c.meta), c.tags, c.class)
-    [] c.op = "AppendObject"   -> AppendObject(St, c.b, c.k, c.blob, c.off)
-    [] c.op = "CreateUpload"   -> CreateUpload(St, c.b, c.k, c.ctype, MetaOf(c.meta), c.tags, c.class)
-    [] c.op = "UploadPart"     -> UploadPart(St, c.b, c.k, c.u, c.n, c.blob)
+    [] c.op = "AppendObject"   -> AppendObject(St, c.b, c.k, c.blob, c.off, c.cksum)
+    [] c.op = "CreateUpload"   -> CreateUpload(St, c.b, c.k, c.ctype, MetaOf(c.meta), c.tags, c.class, c.cktype)
+    [] c.op = "UploadPart"     -> UploadPart(St, c.b, c.k, c.u, c.n, c.blob, c.cksum)
     [] c.op = "UploadPartCopy" -> UploadPartCopy(St, c.sb, c.sk, c.svid, c.b, c.k, c.u, c.n)
     [] c.op = "CompleteUpload" -> CompleteUpload(St, c.b, c.k, c.u, c.manifest, c.cond)
     [] c.op = "AbortUpload"    -> AbortUpload(St, c.b, c.k, c.u)
